@@ -31,7 +31,7 @@ theorem read_layout (L : Layout) (h : L.WF) (st st' : LogState) (app : Bool)
   simp only [Except.ok.injEq] at ht
   subst ht
   rw [assignPerf_thermo _ _ _ _ _ _ _ _ ha, map_append, map_map]
-  cases app <;> simp [startState, LogState.empty, Function.comp_def]
+  cases app <;> simp [startState, reset_eq, LogState.empty, Function.comp_def]
 
 /-- the tables found in a log are the same whatever was read before. -/
 def tablesOf (lines : List Str) : Except Err (List Table) := thermoTables (scan {} lines) lines
